@@ -44,6 +44,7 @@ int __real_nsync_wait_n (void *, void (*) (void *), void (*) (void *), nsync_tim
 
 extern void (*vf_lockann_hook) (void *mu, int acquired, int write);
 extern int (*vf_victim_may_run_hook) (void);
+extern int (*vf_lazy_release_hook) (void);
 extern void (*vf_sem_sleep_hook) (int tid);
 extern void (*vf_requeue_hook) (int tid);
 void *vf_once_sync_base (void);
@@ -71,7 +72,7 @@ static nsync_mu *mus; static nsync_cv *cvs; static int *vars;
 static nsync_note notes[MAXOBJ]; static nsync_counter ctrs[MAXOBJ]; static nsync_once *onces;
 static nsync_semaphore *sems;
 static int nmu, ncv, nvar, nonce, nsem;
-static struct cond_arg conds[MAXOBJ]; static int cond_eq[MAXOBJ]; static int nconds;
+static struct cond_arg conds[MAXOBJ]; static int cond_eq[MAXOBJ]; static int cond_dbg[MAXOBJ]; static int nconds;
 static int var_mu[MAXOBJ]; /* which mutex protects variable i (for oracles), -1 none */
 static struct prog progs[16]; static int nprogs;
 static int sem_binary;
@@ -82,7 +83,7 @@ static int ann_w[MAXOBJ], ann_r[MAXOBJ];    /* nsync's own annotations */
 static int try_ok[16][MAXOBJ];
 static int in_try[16];
 static int once_runs[256], once_done[256];
-static int sleeps_in_lock[16]; static int in_lock_call[16];
+static int sleeps_in_lock[16]; static int in_lock_call[16]; static int in_lock_mu[16];
 static int expect_stuck_ok;
 /* C10: history of the completed nsync_counter_add / nsync_counter_value calls per counter (invocation and response
    times in scheduler steps), checked for linearizability at the end of the execution */
@@ -127,6 +128,8 @@ static int requeues_in_lock[16];
 static void requeue (int tid) { if (tid >= 0 && tid < 16 && in_lock_call[tid]) { requeues_in_lock[tid]++; } }
 /* adversarial scheduling: the victim (fiber 0) may run only while mu0 is held by somebody */
 static int victim_may_run (void) { uint32_t w = *(volatile uint32_t *) &mus[0]; return ((w & (MU_WLOCK | MU_RLOCK_FIELD)) != 0); }
+/* strategy 6: the late looker (fiber 1) is let go once mu0 carries MU_LONG_WAIT */
+static int lazy_release (void) { uint32_t w = *(volatile uint32_t *) &mus[0]; return ((w & MU_LONG_WAIT) != 0); }
 static void check_starved (int me, const char *api) {
 	if (sleeps_in_lock[me] > LONG_WAIT_THRESHOLD + nfibers_total + 6) {
 		vf_violation ("starved", "%s: the caller was sent back to sleep %d times in one call (more than LONG_WAIT_THRESHOLD + number of threads)", api, sleeps_in_lock[me]);
@@ -152,9 +155,23 @@ static void shadow_acq (int m, int write) {
 }
 static void shadow_rel (int m, int write) { if (write) { api_w[m]--; } else { api_r[m]--; } }
 
+/* a condition instrumented with a debug trace (C16): it calls nsync_mu_debug_state_and_waiters on the mutex it is
+   evaluated under.  The call is logged under the thread id 20 + fiber, i.e. shown to the acceptors as an observer
+   call of another thread (the mutex models have no nested calls); what only the implementation can show is the
+   self-deadlock when the library evaluates conditions with its queue spinlock held. */
+static void cond_debug_trace (const struct cond_arg *c, int m) {
+	static char bufs[16][96]; int me = vf_self ();
+	if (m < 0 || me < 0 || me >= 16 || !cond_dbg[c->id]) { return; }
+	vf_log_alias (20 + me);
+	vf_log ("call nsync_mu_debug_state_and_waiters mu%d %d", m, (int) sizeof (bufs[0]));
+	nsync_mu_debug_state_and_waiters (&mus[m], bufs[me], (int) sizeof (bufs[0]));
+	vf_log ("ret nsync_mu_debug_state_and_waiters -");
+	vf_log_alias (0);
+}
 static int cond_fn_eq (const void *v) {
 	const struct cond_arg *c = (const struct cond_arg *) v; int r = (*c->var == c->val);
 	int m = var_mu[c->var - vars];
+	cond_debug_trace (c, m);
 	vf_log ("cond eq c%d %d", c->id, r);
 	if (m >= 0 && api_w[m] != 0) { vf_violation ("cond-under-lock", "condition c%d evaluated while another thread is in a write section of mu%d", c->id, m); }
 	return (r);
@@ -162,6 +179,7 @@ static int cond_fn_eq (const void *v) {
 static int cond_fn_ge (const void *v) {
 	const struct cond_arg *c = (const struct cond_arg *) v; int r = (*c->var >= c->val);
 	int m = var_mu[c->var - vars];
+	cond_debug_trace (c, m);
 	vf_log ("cond ge c%d %d", c->id, r);
 	if (m >= 0 && api_w[m] != 0) { vf_violation ("cond-under-lock", "condition c%d evaluated while another thread is in a write section of mu%d", c->id, m); }
 	return (r);
@@ -246,8 +264,8 @@ static void run_prog (void *arg) {
 	for (i = 0; i != p->n; i++) {
 		struct op *o = &p->ops[i];
 		switch (o->code) {
-		case OP_LOCK: vf_log ("call nsync_mu_lock mu%d", o->a); in_lock_call[me] = 1; sleeps_in_lock[me] = 0; requeues_in_lock[me] = 0; vf_api_enter (); nsync_mu_lock (&mus[o->a]); vf_api_leave (); in_lock_call[me] = 0; check_starved (me, "nsync_mu_lock"); shadow_acq (o->a, 1); vf_log ("ret nsync_mu_lock -"); break;
-		case OP_RLOCK: vf_log ("call nsync_mu_rlock mu%d", o->a); in_lock_call[me] = 1; sleeps_in_lock[me] = 0; requeues_in_lock[me] = 0; vf_api_enter (); nsync_mu_rlock (&mus[o->a]); vf_api_leave (); in_lock_call[me] = 0; check_starved (me, "nsync_mu_rlock"); shadow_acq (o->a, 0); vf_log ("ret nsync_mu_rlock -"); break;
+		case OP_LOCK: vf_log ("call nsync_mu_lock mu%d", o->a); in_lock_call[me] = 1; in_lock_mu[me] = o->a; sleeps_in_lock[me] = 0; requeues_in_lock[me] = 0; vf_api_enter (); nsync_mu_lock (&mus[o->a]); vf_api_leave (); in_lock_call[me] = 0; check_starved (me, "nsync_mu_lock"); shadow_acq (o->a, 1); vf_log ("ret nsync_mu_lock -"); break;
+		case OP_RLOCK: vf_log ("call nsync_mu_rlock mu%d", o->a); in_lock_call[me] = 1; in_lock_mu[me] = o->a; sleeps_in_lock[me] = 0; requeues_in_lock[me] = 0; vf_api_enter (); nsync_mu_rlock (&mus[o->a]); vf_api_leave (); in_lock_call[me] = 0; check_starved (me, "nsync_mu_rlock"); shadow_acq (o->a, 0); vf_log ("ret nsync_mu_rlock -"); break;
 		case OP_UNLOCK: vf_log ("call nsync_mu_unlock mu%d", o->a); shadow_rel (o->a, 1); vf_api_enter (); nsync_mu_unlock (&mus[o->a]); vf_api_leave (); vf_log ("ret nsync_mu_unlock -"); break;
 		case OP_UNLOCK_NW: vf_log ("call nsync_mu_unlock_without_wakeup mu%d", o->a); shadow_rel (o->a, 1); vf_api_enter (); nsync_mu_unlock_without_wakeup (&mus[o->a]); vf_api_leave (); vf_log ("ret nsync_mu_unlock_without_wakeup -"); break;
 		case OP_RUNLOCK: vf_log ("call nsync_mu_runlock mu%d", o->a); shadow_rel (o->a, 0); vf_api_enter (); nsync_mu_runlock (&mus[o->a]); vf_api_leave (); vf_log ("ret nsync_mu_runlock -"); break;
@@ -351,6 +369,9 @@ static void run_prog (void *arg) {
 			int k; int r; nsync_time t = mk_deadline (o, dt, sizeof (dt)); char desc[160]; int dn = 0;
 			int wmode = o->a >= 0 ? (api_w[o->a] != 0) : 0;
 			int wakes0[8]; int ready0 = -1; /* cv wake-up calls finished so far; first object already ready now */
+			/* `awaitn`: Mesa loop around the call, `while (x != v) wait_n (...)`, left on a timeout */
+			if (o->c >= 0 && vars[o->c] == o->e) { break; }
+			awaitn_again: dn = 0; ready0 = -1;
 			for (k = 0; k != o->nobj; k++) {
 				wakes0[k & 7] = o->objk[k] == 0 ? cv_done[o->obji[k]] : 0;
 				if (ready0 < 0 && ((o->objk[k] == 1 && note_flag (notes[o->obji[k]])) || (o->objk[k] == 2 && vf_counter_peek (ctrs[o->obji[k]]) == 0))) { ready0 = k; }
@@ -376,6 +397,7 @@ static void run_prog (void *arg) {
 				if (o->objk[r] == 2 && vf_counter_peek (ctrs[o->obji[r]]) != 0) { vf_violation ("waitn-ready", "nsync_wait_n reported a non-zero counter as ready"); }
 				if (o->objk[r] == 0 && cv_wakes[o->obji[r]] == wakes0[r & 7]) { vf_violation ("waitn-ready", "nsync_wait_n reported a condition variable as ready although every signal / broadcast on it so far had returned before the call began"); }
 			} else if (ready0 >= 0) { vf_violation ("waitn-missed", "nsync_wait_n returned count although object %d was ready when the call began", ready0); }
+			if (o->c >= 0 && r < o->nobj && vars[o->c] != o->e && vf_violation_text () == NULL) { goto awaitn_again; }
 			break; }
 		case OP_DBG_MU: case OP_DBG_MUW: case OP_DBG_CV: case OP_DBG_CVW: {
 			static char areas[16][64 + 256 + 64]; char *area = areas[me]; char *buf = area + 64; /* one buffer per fiber: the calls interleave */ int n = o->b; int k; int bad = 0; const char *api;
@@ -468,9 +490,10 @@ static int parse_op (char *s, struct op *o) {
 	else if (IS ("ctr_wait")) { o->code = OP_CTR_WAIT; o->a = A (1, "k"); parse_dl (n > 2 ? tok[2] : NULL, o); }
 	else if (IS ("ctr_free")) { o->code = OP_CTR_FREE; o->a = A (1, "k"); }
 	else if (IS ("once")) { o->code = OP_ONCE; o->a = A (1, "o"); o->b = n > 2 ? atoi (tok[2]) : 0; }
-	else if (IS ("waitn")) {
-		int k; o->code = OP_WAITN; o->a = n > 1 ? objnum (tok[1], "mu") : -1; parse_dl (n > 2 ? tok[2] : NULL, o);
-		for (k = 3; k < n && o->nobj < 6; k++) {
+	else if (IS ("waitn") || IS ("awaitn")) {   /* waitn <mu|-> <dl> objs…   |   awaitn <mu> <dl> x<j> <v> objs… */
+		int k; int first = 3; o->code = OP_WAITN; o->a = n > 1 ? objnum (tok[1], "mu") : -1; parse_dl (n > 2 ? tok[2] : NULL, o); o->c = -1;
+		if (IS ("awaitn")) { o->c = A (3, "x"); o->e = n > 4 ? atoi (tok[4]) : 1; first = 5; }
+		for (k = first; k < n && o->nobj < 6; k++) {
 			if (objnum (tok[k], "cv") >= 0 && tok[k][0] == 'c') { o->objk[o->nobj] = 0; o->obji[o->nobj++] = objnum (tok[k], "cv"); }
 			else if (tok[k][0] == 'n') { o->objk[o->nobj] = 1; o->obji[o->nobj++] = objnum (tok[k], "n"); }
 			else if (tok[k][0] == 'k') { o->objk[o->nobj] = 2; o->obji[o->nobj++] = objnum (tok[k], "k"); }
@@ -535,7 +558,7 @@ static int parse_scenario (char **lines, int nlines) {
 			int k, x, v; char fn[8], eq[8] = "";
 			if (sscanf (l, "cond c%d %7s x%d %d %7s", &k, fn, &x, &v, eq) >= 4) {
 				conds[k].var = &vars[x]; conds[k].val = v; conds[k].id = k; conds[k].kind = (strcmp (fn, "ge") == 0);
-				cond_eq[k] = (strcmp (eq, "eq") == 0); if (k >= nconds) { nconds = k + 1; }
+				cond_eq[k] = (strncmp (eq, "eq", 2) == 0); cond_dbg[k] = (strstr (eq, "dbg") != NULL); if (k >= nconds) { nconds = k + 1; }
 			}
 		} else if (strncmp (l, "fiber ", 6) == 0 || strncmp (l, "pre ", 4) == 0) {
 			struct prog *p = l[0] == 'f' ? &progs[nprogs++] : &preprog; char *sv; char *t; char *body = strdup (l + (l[0] == 'f' ? 6 : 4));
@@ -556,7 +579,7 @@ static int run_one (char **lines, int nlines, struct vf_config *cfg, FILE *out) 
 	if (parse_scenario (lines, nlines) != 0) { return (98); }
 	cfg->binary_sem = sem_binary;
 	vf_init (cfg);
-	vf_lockann_hook = &lockann; vf_victim_may_run_hook = &victim_may_run; vf_sem_sleep_hook = &sem_sleep; vf_requeue_hook = &requeue; nfibers_total = nprogs;
+	vf_lockann_hook = &lockann; vf_victim_may_run_hook = &victim_may_run; vf_lazy_release_hook = &lazy_release; vf_sem_sleep_hook = &sem_sleep; vf_requeue_hook = &requeue; nfibers_total = nprogs;
 	vf_log_env ("tick %lld", (long long) START_NS);
 	{ /* register the once_sync slots of once.c */
 		char *base = (char *) vf_once_sync_base (); size_t st = vf_once_sync_stride (); int k;
@@ -578,6 +601,14 @@ static int run_one (char **lines, int nlines, struct vf_config *cfg, FILE *out) 
 			if (in_cv_wait_mu[k] != 0 && vf_waiter_unlinked_by_waker (k) &&
 			    (*(volatile uint32_t *) &mus[in_cv_wait_mu[k] - 1] & (MU_WLOCK | MU_RLOCK_FIELD)) == 0) {
 				vf_violation ("cv-woken-asleep", "fiber %d was taken off the cv queue by a signal / broadcast but is still asleep although mu%d is free and no thread can move", k, in_cv_wait_mu[k] - 1);
+				outcome = VF_ORACLE;
+			}
+		}
+		/* C02 at quiescence: a thread inside nsync_mu_lock / nsync_mu_rlock is asleep although the mutex is completely
+		   free and nobody can move (no holder will ever wake it) — a violation even in scenarios that may block */
+		for (k = 0; k != 16; k++) {
+			if (in_lock_call[k] && (*(volatile uint32_t *) &mus[in_lock_mu[k]] & (MU_WLOCK | MU_RLOCK_FIELD)) == 0) {
+				vf_violation ("lock-missed", "fiber %d is asleep inside nsync_mu_lock / nsync_mu_rlock although mu%d is free and no thread can move", k, in_lock_mu[k]);
 				outcome = VF_ORACLE;
 			}
 		}
